@@ -193,6 +193,32 @@ pub fn fq4_alpha(tier: Tier, seed: u64) -> Vec<F12> {
         }
         v.push(f);
     }
+    // Fq4-unitary elements conj(y)/y (norm to Fq2 equal to 1, in particular inside Fq) and elements whose norm
+    // to Fq2 lies in Fq: a = c0 + c1 v with c0^2 - u c1^2 real
+    {
+        let conj4 = |f: &F12| {
+            let mut c = f.clone();
+            c.0[3] = negm(&f.0[3], p);
+            c.0[9] = negm(&f.0[9], p);
+            c
+        };
+        for _ in 0..3 {
+            let mut y = F12::zero();
+            for k in 0..4 {
+                y.0[3 * k] = g();
+            }
+            if let Some(yi) = y.inv() {
+                v.push(conj4(&y).mul(&yi));
+            }
+        }
+        // (1+u) + (2+u) v : norm 7 (the smallest non-trivial element with a real norm)
+        let mut f = F12::zero();
+        f.0[0] = n(1);
+        f.0[6] = n(1);
+        f.0[3] = n(2);
+        f.0[9] = n(1);
+        v.push(f);
+    }
     // all four coefficients with STORED value q-1-i: the four-term accumulator reaches its top band
     let ri = rinv(p);
     for j in 0..tier.pick(10u64, 24) {
